@@ -35,8 +35,8 @@ ASSUMPTIONS = [
     "restriction); compare-as-map lists hold maps whose key fields are present scalars; the target does not itself "
     "specify the koreo.dev/last-applied-configuration annotation or ownerReferences",
     "the last-applied annotation is absent or was written by koreo for this target",
-    "no_update_loop (Coq) takes 'the patched object carries the owner reference and its annotation reads back the "
-    "recorded document' as hypotheses (C08's payload theorems); the harness checks the composed behaviour end to end",
+    "no_update_loop: unique keys in target / live object / owner reference, the owner reference has a string uid, "
+    "the first pass's owner check did not return a PermFail object (corrupt live metadata)",
     "fault-free API (faults are C09's)",
 ] + B.ASSUMPTIONS[:1] + B.ASSUMPTIONS[3:]
 TRUSTED = B.TRUSTED
